@@ -30,6 +30,10 @@ def _self_literal(tag, selfname='self'):
     m = re.match(r'^(is_some|is_none)\((%s\.[A-Za-z_0-9.]+)\)$' % re.escape(selfname), t)
     if m:
         return '%s(%s)' % (m.group(1), m.group(2))
+    # a pure-looking predicate over fields of self only: need_produce_result_in_final(self.join_type)
+    m = re.match(r'^call:([A-Za-z_0-9]+)@\d+\(((?:%s(?:\.[A-Za-z_0-9]+)*,?)+)\)$' % re.escape(selfname), t)
+    if m:
+        return 'call:%s(%s)' % (m.group(1), m.group(2))
     return None
 
 
@@ -102,6 +106,7 @@ def analyse(facts, stream_adt, state_field='state'):
     disp = disp[0]
     drec = facts.fn(disp)
     handler_of = {}
+    per_state = {}
     for vi, v in enumerate(states):
         selfv = U((((('f', fidx[0])), A(senum, vi, v, ())),), 'self')
         args = C16.args_for(drec)
@@ -114,6 +119,7 @@ def analyse(facts, stream_adt, state_field='state'):
             first = next((e[1] for e in o.events if e[0] == 'callargs' and e[1] in summ and e[1] != disp), None)
             if first:
                 handler_of.setdefault(v, {}).setdefault(first, []).append(lits)
+            per_state.setdefault(v, []).append((bool(first), bool(succ)))
     def expand(h, depth):
         """paths of handler h with the state-assigning sub-handlers it calls followed (handle_x -> handle_x_memory_limited)"""
         out = []
@@ -129,6 +135,7 @@ def analyse(facts, stream_adt, state_field='state'):
                 out.append((succ + succ2, merged, h2))
         return out
 
+    inline_terminal = set(v for v, ps in per_state.items() if ps and not any(h or sc for h, sc in ps))
     trans = {}      # state -> list of (succ list, lits incl. dispatch, handler)
     for v, hs in handler_of.items():
         for h, dl in hs.items():
@@ -145,6 +152,8 @@ def analyse(facts, stream_adt, state_field='state'):
                 if not bad:
                     trans.setdefault(v, []).append((succ, merged, hh))
     T = set(v for v in states if v in handler_of and not any(s for s, _, _ in trans.get(v, [])))
+    # a state the dispatcher answers itself (no handler call, no successor assigned on any of its paths) is terminal too
+    T |= inline_terminal
     F = set()
     for v in states:
         if v in T or v not in trans:
